@@ -32,12 +32,14 @@ EDGES = [0, 1, 2, 3]
 
 
 # how plots are named (the file names derive from it): names that end in characters of ".pdf" / ".tex" / ".csv" too
-NAME_STYLES = {"p": "p%d", "speed": "n%dspeed", "cdf": "n%dcdf", "_pdf": "n%d_pdf", "tex": "n%dtex", "csv": "v%dcsv", "png": "g%dpng"}
+NAME_STYLES = {"p": "p%d", "speed": "n%dspeed", "cdf": "n%dcdf", "_pdf": "n%d_pdf", "tex": "n%dtex", "csv": "v%dcsv", "png": "g%dpng", "subdir": "d/n%dq", "subdir2": "t%d/n%dx"}
 _STYLE = ["p"]
 
 
 def pname(plot):
-    return NAME_STYLES[_STYLE[0]] % plot
+    # (a name may hold a relative path, as MakeFilename("{{variable.type}}/{{variable.name}}") makes them)
+    st_ = NAME_STYLES[_STYLE[0]]
+    return st_ % ((plot,) * st_.count("%d"))
 
 
 def plot_of(basename):
